@@ -13,7 +13,12 @@
                        stands directly after the last token of an operand (`Seg`: the spelling of an
                        expression takes the flag "an operand is expected" from true to false), so the
                        operator-name rule of `lex` (`retagOps`) changes nothing, hence
-  * `lex_renderTop`  : the lexer — with or without the rule — reads the characters back as exactly
+  * `calm`, `fnsPlaced_renderTop`, `dotsPlaced_renderTop`: in the canonical spelling every axis-name
+                       keyword is followed by `::`, every node-type keyword by `(` and not preceded by
+                       `:`, and every `.` that directly follows its predecessor is directly followed
+                       by digits — so the function-name rule (`retagFns`) and the trailing-dot rule
+                       (`dropTrailDots`) change nothing either (`post_renderTop`), hence
+  * `lex_renderTop`  : the lexer — with or without the rules — reads the characters back as exactly
                        `renderTop e`, and with `parse_render`:
   * `parseModel_spelling`, `parseSpec_spelling` : lexing and parsing the characters of the canonical
                        spelling gives the tree back.
@@ -430,15 +435,19 @@ theorem lexRaw_spellToks (lc : LexCfg) (ts : Toks) (h : clean lc ts = true) :
     lexRaw lc (spellToks ts) = .ok ts := by
   rw [spellToks_eq, lexRaw_spellGlue lc _ (glueAllOk_of_tight lc ts none h), glueToks_flagItems ts h]
 
-/-- the lexer reads them back with the operator names retagged (when `lc.opRule`) … -/
+/-- the lexer reads them back and applies its passes (`lc.post`: operator names, function names,
+    trailing dots — each when its rule is on) … -/
 theorem lex_spellToks (lc : LexCfg) (ts : Toks) (h : clean lc ts = true) :
-    lex lc (spellToks ts) = .ok (lc.retag ts) :=
+    lex lc (spellToks ts) = .ok (lc.post ts) :=
   lex_of_lexRaw (lexRaw_spellToks lc ts h)
 
-/-- … hence as that list, if no operator name stands where an operand is expected -/
+/-- … hence as that list, if no operator name stands where an operand is expected, no keyword where a
+    function name is read and no `.` directly after an integer part without a fraction -/
 theorem lex_spellToks_placed (lc : LexCfg) (ts : Toks) (h : clean lc ts = true)
-    (hp : lc.opRule = true → opsPlaced true ts = true) : lex lc (spellToks ts) = .ok ts := by
-  rw [lex_spellToks lc ts h, retag_of_placed hp]
+    (ho : lc.opRule = true → opsPlaced true ts = true)
+    (hf : lc.fnRule = true → fnsPlaced false ts = true)
+    (hd : lc.dotRule = true → dotsPlaced false false ts = true) : lex lc (spellToks ts) = .ok ts := by
+  rw [lex_spellToks lc ts h, post_id lc ts ho hf hd]
 
 /-- the tokeniser inverts the canonical spelling -/
 theorem lexRaw_renderTop (lc : LexCfg) (e : Expr) (h : wfE e = true) (hn : namesOk lc e = true) :
@@ -573,14 +582,319 @@ theorem placed_renderTop (e : Expr) : opsPlaced true (renderTop e) = true := by
 theorem retagOps_renderTop (e : Expr) : retagOps true (renderTop e) = renderTop e :=
   retagOps_id true _ (placed_renderTop e)
 
-theorem retag_renderTop (lc : LexCfg) (e : Expr) : lc.retag (renderTop e) = renderTop e :=
-  retag_of_placed (fun _ => placed_renderTop e)
+/-! ### the keywords and dots of the canonical spelling stand where the other two rules leave them
 
-/-- **the lexer inverts the canonical spelling** (with the operator-name rule, `lc.opRule = true`, as
-    well as without) -/
+  `calm ts`: every axis-name keyword of `ts` is followed by `::`, every node-type keyword by `(`, every
+  `:` by a name or `*` (so no keyword is the local part of a QName), and every `.` that directly follows
+  its predecessor is directly followed by digits (it is the point inside `1.5`).  The conditions look
+  ahead only, and only ask for a token to be there, so they survive appending (`calm_append`); every
+  piece of the canonical spelling meets them. -/
+
+/-- the next token is `::` -/
+def startsCC : Toks → Bool
+  | n :: _ => n.tok == .p .coloncolon
+  | [] => false
+
+/-- the next token is an `ncname` or `*` -/
+def nameNext : Toks → Bool
+  | n :: _ => (match n.tok with | .ncname _ => true | .p .star => true | _ => false)
+  | [] => false
+
+def calmAt (t : LTok) (ts : Toks) : Bool :=
+  match t.tok with
+  | .kw k => k.isOpName || (if k.isNodeType then startsParen ts else startsCC ts)
+  | .p .colon => nameNext ts
+  | .p .dot => !t.glued || gluedDigitsNext ts
+  | _ => true
+
+def calm : Toks → Bool
+  | [] => true
+  | t :: ts => calmAt t ts && calm ts
+
+theorem startsParen_append {ts : Toks} (b : Toks) (h : startsParen ts = true) : startsParen (ts ++ b) = true := by
+  cases ts with
+  | nil => simp [startsParen] at h
+  | cons n r => rw [startsParen_eq] at h ⊢; exact h
+
+theorem startsCC_append {ts : Toks} (b : Toks) (h : startsCC ts = true) : startsCC (ts ++ b) = true := by
+  cases ts with
+  | nil => simp [startsCC] at h
+  | cons n r => exact h
+
+theorem nameNext_append {ts : Toks} (b : Toks) (h : nameNext ts = true) : nameNext (ts ++ b) = true := by
+  cases ts with
+  | nil => simp [nameNext] at h
+  | cons n r => exact h
+
+theorem gluedDigitsNext_append {ts : Toks} (b : Toks) (h : gluedDigitsNext ts = true) :
+    gluedDigitsNext (ts ++ b) = true := by
+  cases ts with
+  | nil => simp [gluedDigitsNext] at h
+  | cons n r => exact h
+
+theorem calmAt_append {t : LTok} {ts : Toks} (b : Toks) (h : calmAt t ts = true) : calmAt t (ts ++ b) = true := by
+  obtain ⟨tok, g⟩ := t
+  cases tok with
+  | kw k =>
+    simp only [calmAt, Bool.or_eq_true] at h ⊢
+    rcases h with h | h
+    · exact Or.inl h
+    · refine Or.inr ?_
+      cases hk : k.isNodeType
+      · rw [hk] at h; exact startsCC_append b h
+      · rw [hk] at h; exact startsParen_append b h
+  | p x =>
+    cases x <;> try exact h
+    · exact nameNext_append b h
+    · simp only [calmAt, Bool.or_eq_true] at h ⊢
+      exact h.imp id (gluedDigitsNext_append b)
+  | _ => exact h
+
+theorem calm_append {a b : Toks} (ha : calm a = true) (hb : calm b = true) : calm (a ++ b) = true := by
+  induction a with
+  | nil => exact hb
+  | cons t a ih =>
+    simp only [calm, Bool.and_eq_true] at ha
+    simp only [List.cons_append, calm, Bool.and_eq_true]
+    exact ⟨calmAt_append b ha.1, ih ha.2⟩
+
+theorem calm_nil : calm [] = true := rfl
+
+theorem calm_cons {t : LTok} {r : Toks} (h : calmAt t r = true) (hr : calm r = true) : calm (t :: r) = true := by
+  simp only [calm, h, hr, Bool.and_self]
+
+theorem calm_wrap {lv min : Nat} {ts : Toks} (h : calm ts = true) : calm (wrap lv min ts) = true := by
+  unfold wrap
+  split
+  · exact calm_cons rfl (calm_append h (calm_cons (t := U (.p .rparen)) rfl calm_nil))
+  · exact h
+
+theorem calmAt_opTok (op : BinOp) (r : Toks) : calmAt (U (opTok op)) r = true := by
+  cases op with
+  | cmp o => cases o <;> rfl
+  | _ => rfl
+
+theorem calm_testToks (t : NodeTest) : calm (testToks t) = true := by
+  cases t <;> rfl
+
+theorem calm_fnToks (p : Option Chars) (n : Chars) : calm (fnToks p n) = true := by
+  cases p <;> rfl
+
+/-- the `.` of a rendered Number is directly followed by its fraction digits (no hypothesis on `n`) -/
+theorem calm_numToks (n : Num) : calm (numToks n) = true := by
+  unfold numToks
+  simp only
+  split <;> rfl
+
+theorem calm_basePrefix {b : Expr} (h : calm (raw b) = true) : calm (basePrefix b) = true := by
+  by_cases h1 : b = .ctx
+  · subst h1; simp [basePrefix, calm]
+  by_cases h2 : b = .root
+  · subst h2; simp only [basePrefix]; rfl
+  · rw [basePrefix_of_ne h1 h2]
+    exact calm_append (calm_wrap h) (calm_cons (t := U (.p .slash)) rfl calm_nil)
+
+mutual
+theorem calm_raw : (e : Expr) → calm (raw e) = true
+  | .bin op l r => by
+    simp only [raw]
+    exact calm_append (calm_wrap (calm_raw l)) (calm_cons (calmAt_opTok op _) (calm_wrap (calm_raw r)))
+  | .neg e => by
+    simp only [raw]
+    exact calm_cons rfl (calm_wrap (calm_raw e))
+  | .num n => by
+    simp only [raw]
+    exact calm_numToks n
+  | .lit s => by
+    simp only [raw]
+    rfl
+  | .var p n => by
+    simp only [raw]
+    cases p <;> rfl
+  | .call b p n as => by
+    simp only [raw]
+    exact calm_append (calm_append (calm_basePrefix (calm_raw b)) (calm_fnToks p n))
+      (calm_cons rfl (calm_args as))
+  | .root => by
+    simp only [raw]
+    rfl
+  | .ctx => by
+    simp only [raw]
+    rfl
+  | .step b ax t ps => by
+    simp only [raw]
+    exact calm_append (calm_basePrefix (calm_raw b))
+      (calm_cons rfl (calm_cons rfl (calm_append (calm_testToks t) (calm_preds ps))))
+  | .filt b p => by
+    simp only [raw]
+    exact calm_append (calm_wrap (calm_raw b))
+      (calm_cons rfl (calm_append (calm_wrap (calm_raw p)) (calm_cons (t := U (.p .rbrack)) rfl calm_nil)))
+theorem calm_preds : (ps : Exprs) → calm (renderPreds ps) = true
+  | .nil => by simp only [renderPreds]; rfl
+  | .cons p ps => by
+    simp only [renderPreds]
+    exact calm_cons rfl (calm_append (calm_wrap (calm_raw p)) (calm_cons rfl (calm_preds ps)))
+theorem calm_args : (as : Exprs) → calm (renderArgs as) = true
+  | .nil => by simp only [renderArgs]; rfl
+  | .cons a as => by
+    have ha := calm_wrap (lv := level a) (min := 0) (calm_raw a)
+    cases as with
+    | nil =>
+      simp only [renderArgs]
+      exact calm_append ha (calm_cons (t := U (.p .rparen)) rfl calm_nil)
+    | cons b bs =>
+      have := calm_args (.cons b bs)
+      simp only [renderArgs] at this ⊢
+      exact calm_append ha (calm_cons rfl this)
+end
+
+theorem calm_renderTop (e : Expr) : calm (renderTop e) = true := by
+  by_cases hr : e = .root
+  · subst hr; rfl
+  · have hrt : renderTop e = render e 0 := by
+      cases e <;> first | rfl | exact absurd rfl hr
+    rw [hrt]
+    exact calm_wrap (calm_raw e)
+
+/-- the first token is an axis-name or node-type keyword -/
+def headNameKw : Toks → Bool
+  | n :: _ => n.tok.isNameKw
+  | [] => false
+
+theorem headNameKw_of_nameNext {ts : Toks} (h : nameNext ts = true) : headNameKw ts = false := by
+  cases ts with
+  | nil => rfl
+  | cons n r =>
+    obtain ⟨tok, g⟩ := n
+    cases tok <;> first | rfl | simp [nameNext] at h
+
+theorem not_call_of_startsCC {ts : Toks} (h : startsCC ts = true) :
+    startsParen ts = false ∧ prefixOfCall ts = false := by
+  cases ts with
+  | nil => simp [startsCC] at h
+  | cons n r =>
+    obtain ⟨tok, g⟩ := n
+    simp only [startsCC, beq_iff_eq] at h
+    subst h
+    constructor
+    · rfl
+    · simp [prefixOfCall]
+
+theorem not_prefix_of_startsParen {ts : Toks} (h : startsParen ts = true) : prefixOfCall ts = false := by
+  cases ts with
+  | nil => simp [startsParen] at h
+  | cons n r =>
+    rw [startsParen_eq] at h
+    obtain ⟨tok, g⟩ := n
+    simp only [beq_iff_eq] at h
+    subst h
+    simp [prefixOfCall]
+
+/-- in a calm list no keyword stands where a function name is read (`pc`: after a `:` there must not
+    be a keyword at all) -/
+theorem fnsPlaced_of_calm : ∀ (ts : Toks) (pc : Bool), calm ts = true →
+    (pc = true → headNameKw ts = false) → fnsPlaced pc ts = true
+  | [], _, _, _ => rfl
+  | t :: ts, pc, h, hpc => by
+    simp only [calm, Bool.and_eq_true] at h
+    obtain ⟨tok, g⟩ := t
+    cases tok with
+    | kw k =>
+      have ih := fnsPlaced_of_calm ts false h.2 (by simp)
+      have hc := h.1
+      simp only [calmAt, Bool.or_eq_true] at hc
+      have hbeq : ((Tok.kw k : Tok) == Tok.p Punct.colon) = false := by simp
+      simp only [fnsPlaced, hbeq, ih, Bool.and_true, Bool.not_eq_true']
+      cases hk : k.isOpName with
+      | true => simp [fnHere, hk]
+      | false =>
+        have hpc' : pc = false := by
+          cases pc with
+          | false => rfl
+          | true => have := hpc rfl; simp [headNameKw, Tok.isNameKw, hk] at this
+        subst hpc'
+        rw [hk] at hc
+        rcases hc with hc | hc
+        · cases hc
+        · cases hn : k.isNodeType with
+          | true =>
+            rw [hn] at hc
+            simp [fnHere, hn, not_prefix_of_startsParen hc]
+          | false =>
+            rw [hn] at hc
+            have := not_call_of_startsCC hc
+            simp [fnHere, this.1, this.2]
+    | p x =>
+      by_cases hx : x = .colon
+      · subst hx
+        have hc : nameNext ts = true := h.1
+        have ih := fnsPlaced_of_calm ts true h.2 (fun _ => headNameKw_of_nameNext hc)
+        simpa [fnsPlaced] using ih
+      · have hbeq : ((Tok.p x : Tok) == Tok.p Punct.colon) = false := by simpa using hx
+        have ih := fnsPlaced_of_calm ts false h.2 (by simp)
+        simp only [fnsPlaced, hbeq, ih, Bool.and_true]
+    | ncname s =>
+      have hbeq : ((Tok.ncname s : Tok) == Tok.p Punct.colon) = false := by simp
+      have ih := fnsPlaced_of_calm ts false h.2 (by simp)
+      simp only [fnsPlaced, hbeq, ih, Bool.and_true]
+    | digits s =>
+      have hbeq : ((Tok.digits s : Tok) == Tok.p Punct.colon) = false := by simp
+      have ih := fnsPlaced_of_calm ts false h.2 (by simp)
+      simp only [fnsPlaced, hbeq, ih, Bool.and_true]
+    | lit dq s =>
+      have hbeq : ((Tok.lit dq s : Tok) == Tok.p Punct.colon) = false := by simp
+      have ih := fnsPlaced_of_calm ts false h.2 (by simp)
+      simp only [fnsPlaced, hbeq, ih, Bool.and_true]
+    | var s =>
+      have hbeq : ((Tok.var s : Tok) == Tok.p Punct.colon) = false := by simp
+      have ih := fnsPlaced_of_calm ts false h.2 (by simp)
+      simp only [fnsPlaced, hbeq, ih, Bool.and_true]
+
+/-- in a calm list no `.` is a trailing dot -/
+theorem dotsPlaced_of_calm : ∀ (ts : Toks) (pi pdot : Bool), calm ts = true → dotsPlaced pi pdot ts = true
+  | [], _, _, _ => rfl
+  | t :: ts, pi, pdot, h => by
+    simp only [calm, Bool.and_eq_true] at h
+    have ih := dotsPlaced_of_calm ts (piNext pdot t) (t.tok == .p .dot) h.2
+    simp only [dotsPlaced, ih, Bool.and_true, Bool.not_eq_true']
+    obtain ⟨tok, g⟩ := t
+    by_cases hd : tok = .p .dot
+    · subst hd
+      have hc := h.1
+      simp only [calmAt, Bool.or_eq_true, Bool.not_eq_true'] at hc
+      rcases hc with hc | hc
+      · subst hc; simp [dotHere]
+      · simp [dotHere, hc]
+    · have : (tok == Tok.p Punct.dot) = false := by simpa using hd
+      simp [dotHere, this]
+
+/-- **in the canonical spelling the function-name rule changes nothing**: every axis-name keyword of
+    `renderTop e` is followed by `::`, every node-type keyword by `(` and preceded by `::` (names are
+    `ncname` tokens in `renderTop e`, whatever they spell) -/
+theorem fnsPlaced_renderTop (e : Expr) : fnsPlaced false (renderTop e) = true :=
+  fnsPlaced_of_calm _ false (calm_renderTop e) (by simp)
+
+theorem retagFns_renderTop (e : Expr) : retagFns false (renderTop e) = renderTop e :=
+  retagFns_id false _ (fnsPlaced_renderTop e)
+
+/-- **in the canonical spelling no `.` is dropped**: a stand-alone `.` is written after a space, and the
+    `.` of a Number is directly followed by its fraction -/
+theorem dotsPlaced_renderTop (e : Expr) : dotsPlaced false false (renderTop e) = true :=
+  dotsPlaced_of_calm _ false false (calm_renderTop e)
+
+theorem dropTrailDots_renderTop (e : Expr) : dropTrailDots false false (renderTop e) = renderTop e :=
+  dropTrailDots_id false false _ (dotsPlaced_renderTop e)
+
+/-- the three passes of the lexer leave the canonical spelling as it is, whichever of them are on -/
+theorem post_renderTop (lc : LexCfg) (e : Expr) : lc.post (renderTop e) = renderTop e :=
+  post_id lc _ (fun _ => placed_renderTop e) (fun _ => fnsPlaced_renderTop e) (fun _ => dotsPlaced_renderTop e)
+
+/-- **the lexer inverts the canonical spelling** (with the operator-name, function-name and
+    trailing-dot rules — `lc.opRule`, `lc.fnRule`, `lc.dotRule` — or without) -/
 theorem lex_renderTop (lc : LexCfg) (e : Expr) (h : wfE e = true) (hn : namesOk lc e = true) :
     lex lc (spellToks (renderTop e)) = .ok (renderTop e) :=
   lex_spellToks_placed lc _ (clean_renderTop lc e h hn) (fun _ => placed_renderTop e)
+    (fun _ => fnsPlaced_renderTop e) (fun _ => dotsPlaced_renderTop e)
 
 /-! ### names of a lexer with fewer name start characters are names of one with more -/
 
@@ -692,6 +1006,11 @@ theorem parseModel_err_of {cs : Chars} (ts : Toks) (hl : lex lexModel cs = .ok t
     (hs : hasSlashStar ts = false) : parseModel cs = .err := by
   simp only [Option.isSome_eq_false_iff, Option.isNone_iff_eq_none] at hp
   simp [parseModel, hl, hp, hp', hs]
+
+theorem parseSpec_err_of {cs : Chars} (ts : Toks) (hl : lex lexSpec cs = .ok ts)
+    (hp : (parseToks cfgSpec ts).isSome = false) : parseSpec cs = .err := by
+  simp only [Option.isSome_eq_false_iff, Option.isNone_iff_eq_none] at hp
+  simp [parseSpec, hl, hp]
 
 /-- the two formulations of the operator-name rule — xsel's, on the token list after the lexer
     (`retagOps`), and the specification's, in the parser by grammar position (`Cfg.opNames`) — read
